@@ -55,6 +55,12 @@ fn environments(alt_cwd: &str) -> Vec<(&'static str, Vec<(String, String)>, Opti
         ("other-cwd", vec![], Some(alt_cwd.to_string())),
         ("unrelated-vars", unrelated, None),
         ("repeat", vec![], None),
+        // variables zerv never reads whose value / name is not valid UTF-8 (Latin-1 text, a stray byte)
+        ("non-utf8-value", vec![e("ZV_NOTE", "\u{0}HEX:636166e9"), e("EDITOR_HINT", "\u{0}HEX:fffe"), e("LESSCHARSET", "\u{0}HEX:6c6174696e31ff")], None),
+        ("non-utf8-name", vec![e("\u{0}HEX:4e4f5445e9", "x")], None),
+        // git's message catalogues: what zerv reads from git must not depend on the message language
+        // (stdout and status only: a diagnostic may quote git's own, translated, message)
+        ("msg-language-de", vec![e("LANG", "C.UTF-8"), e("LC_ALL", "C.UTF-8"), e("LANGUAGE", "de:fr")], None),
     ]
 }
 
@@ -79,7 +85,7 @@ fn compare_all(base_spec: &proc::Spec, alt_cwd: &str, clocked_ok: bool, cx: &mut
         ensure!(o.code == base.code, "[{label}] exit status {:?} differs from the baseline {:?} for {:?}", o.code, base.code, base_spec.args);
         ensure!(a == b, "[{label}] stdout differs from the baseline (TZ=UTC, LANG=C):\n  baseline: {:?}\n  {label}: {:?}\n  args: {:?}", base.out_str(), o.out_str(), base_spec.args);
         let (ea, eb) = if clocked_ok { (mask_clock(&base.err_str(), t0, t1), mask_clock(&o.err_str(), t0, t1)) } else { (base.err_str(), o.err_str()) };
-        ensure!(ea == eb, "[{label}] stderr differs from the baseline:\n  baseline: {:?}\n  {label}: {:?}", base.err_str(), o.err_str());
+        ensure!(ea == eb || label.starts_with("msg-"), "[{label}] stderr differs from the baseline:\n  baseline: {:?}\n  {label}: {:?}", base.err_str(), o.err_str());
     }
     // RUST_LOG: stdout and status only
     let mut spec = base_spec.clone();
@@ -384,7 +390,7 @@ pub fn property() -> Property {
     let _ = gens::pick::<u8>;
     Property {
         id: "C14",
-        rule: "cases = `zerv version|flow` runs on stdin objects (timestamps within 14 h of a UTC day boundary, schemas with ts() components, calver and other presets, templates using format_timestamp / hash / hash_int / case filters) and on real repositories (-C), each executed in a baseline environment (TZ=UTC, LANG=C, cwd=/) and in 12 variants (5 time zones incl. POSIX forms and unset, 3 locale settings, another cwd, 59 unrelated variables incl. HOME/USER/TERM/COLUMNS/SOURCE_DATE_EPOCH, repetition) + RUST_LOG=debug (stdout/status only) + 3 concurrent invocations + (git) inside the repository without -C. Oracle (metamorphic): stdout, status and stderr identical to the baseline; cases are clock-free by construction (work tree clean, dirty=false, flow in commit post-mode), so comparison is byte-exact; the wall-clock dev/timestamp path is bracketed in C02/C04/C06. equal-tags-repeat: repositories whose tagged commit carries 2-4 tags of one precedence-equal class (v prefix, build metadata, trailing .0, label spellings), 16 processes must print the same bytes. Non-trivial = every case (each prints a time- or hash-derived component or depends on the repository); distinct = distinct cases.",
+        rule: "cases = `zerv version|flow` runs on stdin objects (timestamps within 14 h of a UTC day boundary, schemas with ts() components, calver and other presets, templates using format_timestamp / hash / hash_int / case filters) and on real repositories (-C), each executed in a baseline environment (TZ=UTC, LANG=C, cwd=/) and in 15 variants (5 time zones incl. POSIX forms and unset, 3 locale settings, another cwd, 59 unrelated variables incl. HOME/USER/TERM/COLUMNS/SOURCE_DATE_EPOCH, repetition, unrelated variables whose value / name is not valid UTF-8, git's German / French message catalogue (stdout and status only)) + RUST_LOG=debug (stdout/status only) + 3 concurrent invocations + (git) inside the repository without -C. Oracle (metamorphic): stdout, status and stderr identical to the baseline; cases are clock-free by construction (work tree clean, dirty=false, flow in commit post-mode), so comparison is byte-exact; the wall-clock dev/timestamp path is bracketed in C02/C04/C06. equal-tags-repeat: repositories whose tagged commit carries 2-4 tags of one precedence-equal class (v prefix, build metadata, trailing .0, label spellings), 16 processes must print the same bytes. Non-trivial = every case (each prints a time- or hash-derived component or depends on the repository); distinct = distinct cases.",
         assumptions: vec![
             "only the locales installed in the image exist (C, C.UTF-8); other names exercise the fallback path",
             "one machine, one libc, one Rust version",
